@@ -419,6 +419,8 @@ class RenderCount:
             return self.block(s.body, env, counts)
         if isinstance(s, ast.Try):
             t = self.block(s.body, env, counts)
+            if not t and s.orelse:
+                self.block(s.orelse, env, counts)  # try … else: the no-exception path goes on there
             for h in s.handlers:
                 c1 = dict(counts)
                 self.block(h.body, env.fork(), c1)
